@@ -22,7 +22,8 @@ type Clause struct {
 
 type LoopContract struct {
 	Invariants []*Clause
-	Decreases  *Clause
+	Decreases  *Clause   // first component (kept for reporting)
+	DecList    []*Clause // lexicographic measure components
 }
 
 type Contract struct {
@@ -223,14 +224,27 @@ func parseContractLines(sc *bufio.Scanner, path, pkgPath string) ([]*Contract, e
 			if curLoop == nil {
 				return nil, fmt.Errorf("%s:%d: %s outside loop", path, rc.line, rc.kw)
 			}
-			c, err := mk(rc.kw, rc)
+			rc1 := rc
+			if rc.kw == "decreases" {
+				rc1.text = splitTopLevel(rc.text, ',')[0]
+			}
+			c, err := mk(rc.kw, rc1)
 			if err != nil {
 				return nil, err
 			}
+			c.Src = rc.text
 			if rc.kw == "invariant" {
 				curLoop.Invariants = append(curLoop.Invariants, c)
 			} else {
 				curLoop.Decreases = c
+				curLoop.DecList = nil
+				for _, part := range splitTopLevel(rc.text, ',') {
+					pc, err := mk("decreases", rawClause{"decreases", part, rc.line})
+					if err != nil {
+						return nil, err
+					}
+					curLoop.DecList = append(curLoop.DecList, pc)
+				}
 			}
 		default:
 			return nil, fmt.Errorf("%s:%d: unsupported clause %q", path, rc.line, rc.kw)
